@@ -9,7 +9,7 @@ Open Scope Z_scope.
    keeps the order of the others, shrinks size accordingly, and touches neither the
    checked-out objects nor the capacity *)
 Theorem c09_retain_spec : forall c s t ds,
-  pcof s t = ORetain ds ->
+  pcof s t = ORetainL ds ->
   exists s', step c s (Step t) = Some s'
     /\ vec s' = select true (decisions ds (vec s)) (vec s)
     /\ size s' = size s - zlen (select false (decisions ds (vec s)) (vec s))
@@ -64,7 +64,7 @@ Definition tr9 : list label :=
   get_new 0 ++ get_new 1 ++ get_new 2
   ++ [Start 3 (OpTake 0); Step 3; Step 3; Step 3; Step 3]
   ++ ret 4 1 ++ ret 5 2
-  ++ [Start 6 (OpRetain [false]); Step 6; Start 7 (OpResize 0); Step 7].
+  ++ [Start 6 (OpRetain [false]); Step 6; Step 6; Step 6; Start 7 (OpResize 0); Step 7; Step 7].
 Example c09_nonvacuous :
   exists s, run cfg3 (init cfg3) tr9 = Some s /\ alive s = true
             /\ dcount 0 (log s) = 1 /\ dcount 1 (log s) = 1 /\ dcount 2 (log s) = 1
